@@ -237,7 +237,7 @@ Section PFiles.
     handle_op h (HWrite data) (PS s hs) =
     (PS (phys_set_inode s ino data) (<[h := HPhysWriter 0 ino (Z.of_nat (length data)) false]> hs), Ok (N.of_nat (length data))).
   Proof.
-    intros Hh Hc Hd. unfold handle_op. cbn [st_handles pstore]. rewrite Hh. cbn [put].
+    intros Hh Hc Hd. rewrite handle_op_no_io by reflexivity. unfold handle_op0. cbn [st_handles pstore]. rewrite Hh. cbn [put].
     destruct data as [|b data]; [congruence|].
     unfold phys_content. cbn [st_bases pstore lookup list_lookup]. rewrite Hc, cursor_write_fresh. reflexivity.
   Qed.
@@ -245,7 +245,7 @@ Section PFiles.
   Lemma phop_drop (s : physfs) hs h ino pos :
     hs !! h = Some (HPhysWriter 0 ino pos false) ->
     handle_op h HDrop (PS s hs) = (PS s (<[h := HClosed]> hs), Ok tt).
-  Proof. intros Hh. unfold handle_op. cbn [st_handles pstore]. rewrite Hh. reflexivity. Qed.
+  Proof. intros Hh. rewrite handle_op_no_io by reflexivity. unfold handle_op0. cbn [st_handles pstore]. rewrite Hh. reflexivity. Qed.
 
   (** ** the whole session on the modelled PhysicalFS *)
   Theorem prefine_write_file (s : physfs) hs p data : pgood s ->
